@@ -148,7 +148,9 @@ class Skeleton:
         return out
       raise AnalysisError(f"{f.qualname}: unrecognised join idiom `{short(e)}`")
     if isinstance(e, ast.Call) and isinstance(e.func, ast.Name) and e.func.id == "str" and len(e.args) == 1:
-      return self.of_expr(f, e.args[0], choices)
+      if isinstance(e.args[0], (ast.Constant, ast.JoinedStr, ast.Attribute, ast.Name)) or (isinstance(e.args[0], ast.BinOp) and isinstance(e.args[0].op, ast.Add)):
+        return self.of_expr(f, e.args[0], choices)
+      return [Field(unparse(e.args[0]), "")]          # str(<any value>): one printed value
     if isinstance(e, ast.Attribute) and unparse(e) in choices:
       return [Choice(unparse(e), choices[unparse(e)])]
     if isinstance(e, (ast.Attribute, ast.Name)):
